@@ -49,6 +49,11 @@ type thread struct {
 	depth   int
 	frame   *frame
 	closing int // >0 while running __close handlers during unwinding
+	// inHandler counts the __close handlers that are active on this thread
+	inHandler int
+	// dying: the coroutine is being closed (coroutine.close): its stack is
+	// unwinding and errors of handlers must not suspend it again
+	dying bool
 }
 
 type ctlKind int
@@ -75,6 +80,7 @@ type Interp struct {
 	Steps    int
 	MaxSteps int
 	MaxDepth int
+	Ext      Ext
 	cur      *thread
 	main     *thread
 	coros    []*Coro
@@ -103,6 +109,32 @@ func New() *Interp {
 type Options struct {
 	MaxSteps int
 	MaxDepth int
+	// Ext selects the extended error model used by check C11 (see Ext).
+	Ext Ext
+}
+
+// Ext switches on parts of the error model that the default model leaves
+// Unspec (check C11 decides them from the manual, see cmd/c11/NOTES.md).
+type Ext struct {
+	// CloseErrHandled: an error raised by a __close handler while another
+	// error unwinds the stack under xpcall is "handled like an error in the
+	// regular code where the variable was defined" (§3.3.8): the message
+	// handler runs for it as for any other runtime error (default: Unspec).
+	CloseErrHandled bool
+	// HandlerErrAny: an error inside a message handler makes the xpcall
+	// return false plus a value the manual does not determine (*Any); how
+	// often the handler is re-entered is not determined either, so handlers
+	// must not have observable effects after their first activation
+	// (default: Unspec).
+	HandlerErrAny bool
+	// CoErrKeepsStack (check C10): "if a coroutine ends with an error, it does
+	// not unwind its stack, so it does not close any variable" (§3.3.8): the
+	// pending to-be-closed variables of a coroutine that died by an error are
+	// closed (with that error) only by coroutine.close, or by the function
+	// made by coroutine.wrap, which closes the coroutine in case of errors.
+	// Default (false): the coroutine's stack unwinds at once, running the
+	// handlers before resume returns false.
+	CoErrKeepsStack bool
 }
 
 // Run evaluates chunk p with the given arguments (each nil, bool, int64,
@@ -121,6 +153,7 @@ func RunOpts(p *prog.Prog, args []Value, o Options) (res Result) {
 	if o.MaxDepth > 0 {
 		in.MaxDepth = o.MaxDepth
 	}
+	in.Ext = o.Ext
 	defer in.killCoros()
 	defer func() {
 		res.Trace = in.Trace
@@ -162,8 +195,13 @@ func (in *Interp) rterr(node int, what string) {
 // the nearest protected boundary is an xpcall) runs at the point of the error.
 func (in *Interp) raise(v Value) {
 	t := in.cur
+	if in.Ext.CoErrKeepsStack && t.co != nil && len(t.pstack) == 0 && !t.dying {
+		// no protected call on this coroutine's stack: the coroutine ends with
+		// the error and its stack stays as it is (§3.3.8, last paragraph)
+		in.dieWithStack(t.co, v)
+	}
 	if n := len(t.pstack); n > 0 && t.pstack[n-1].isX && t.pstack[n-1].handler != nil {
-		if t.closing > 0 {
+		if t.closing > 0 && !in.Ext.CloseErrHandled {
 			unspec("error raised by a __close handler under xpcall")
 		}
 		h := t.pstack[n-1].handler
@@ -175,6 +213,10 @@ func (in *Interp) raise(v Value) {
 			defer func() {
 				if r := recover(); r != nil {
 					if _, ok := r.(LuaError); ok {
+						if in.Ext.HandlerErrAny {
+							v = &Any{}
+							return
+						}
 						unspec("error inside a message handler")
 					}
 					panic(r)
@@ -263,6 +305,8 @@ func (in *Interp) metaOf(v Value, event string) Value {
 		mt = in.StringMT
 	case *RTErr:
 		mt = in.StringMT
+	case *Any:
+		unspec("operation on an undetermined value")
 	}
 	if mt == nil {
 		return nil
@@ -294,38 +338,14 @@ type tbcEntry struct {
 // completion inside the scope (repeat ... until cond).
 func (in *Interp) block(body []prog.Stmt, env *binding, fr *frame, tail func(env *binding) ctl) (c ctl) {
 	var tbcs []tbcEntry
-	t := in.cur
-	normal := false
 	defer func() {
-		if normal {
+		// leaving the scope by an error or by coroutine.close: the variables that
+		// are still pending are closed with that condition in flight (§3.3.8)
+		if len(tbcs) == 0 {
 			return
 		}
-		r := recover()
-		if r == nil {
-			return
-		}
-		switch x := r.(type) {
-		case LuaError:
-			// unwinding by error: close pending variables with the error
-			errv := x.V
-			t.closing++
-			for i := len(tbcs) - 1; i >= 0; i-- {
-				errv = in.closeOne(tbcs[i], errv, true)
-			}
-			t.closing--
-			panic(LuaError{V: errv})
-		case coClose:
-			var errv Value = x.err
-			has := x.hasErr
-			for i := len(tbcs) - 1; i >= 0; i-- {
-				ne := in.closeOne2(tbcs[i], errv, has)
-				if ne.raised {
-					errv, has = ne.v, true
-				}
-			}
-			panic(coClose{err: errv, hasErr: has})
-		default:
-			panic(r)
+		if r := recover(); r != nil {
+			panic(in.unwind(&tbcs, r))
 		}
 	}()
 	n := len(body)
@@ -355,7 +375,6 @@ func (in *Interp) block(body []prog.Stmt, env *binding, fr *frame, tail func(env
 	if c.kind == cNone && tail != nil {
 		c = tail(env)
 	}
-	normal = true
 	in.closeDown(&tbcs, 0)
 	return c
 }
@@ -369,30 +388,69 @@ func findLabel(body []prog.Stmt, name string) (int, bool) {
 	return 0, false
 }
 
-// closeDown closes tbcs[k:] in reverse order on a normal exit (no error in
-// flight).  An error raised by a handler propagates after the remaining
-// handlers have run (receiving that error).
+// closeDown closes tbcs[k:] in reverse order of declaration on a normal exit
+// (end of block, break, goto, return: no error in flight).  Every entry is
+// removed from the list before its handler is called (exactly once).  An error
+// raised by a handler is "handled like an error in the regular code where the
+// variable was defined": the remaining handlers run with it in flight, then it
+// propagates.
 func (in *Interp) closeDown(tbcs *[]tbcEntry, k int) {
-	var errv Value
-	raised := false
-	l := *tbcs
-	*tbcs = l[:k]
-	t := in.cur
-	for i := len(l) - 1; i >= k; i-- {
-		if raised {
-			t.closing++
-			errv = in.closeOne(l[i], errv, true)
-			t.closing--
-		} else {
-			r := in.closeOne2(l[i], nil, false)
-			if r.raised {
-				raised, errv = true, r.v
+	var cond interface{} // nil, or the LuaError in flight
+	for len(*tbcs) > k {
+		l := *tbcs
+		e := l[len(l)-1]
+		*tbcs = l[:len(l)-1]
+		if cond == nil {
+			if r := in.closeOne2(e, nil, false); r.raised {
+				cond = LuaError{V: r.v}
 			}
+		} else {
+			cond = in.closeUnder(e, cond)
 		}
 	}
-	if raised {
-		panic(LuaError{V: errv})
+	if cond != nil {
+		panic(cond)
 	}
+}
+
+// unwind closes every entry of *tbcs (last declared first) while condition r
+// is in flight: r is the panic payload of a Lua error (LuaError) or of a
+// coroutine being closed (coClose).  It returns the payload to go on with
+// (a handler error replaces the error in flight).  Any other payload (Unspec,
+// Diverge, ...) is returned unchanged and nothing is closed.
+func (in *Interp) unwind(tbcs *[]tbcEntry, r interface{}) interface{} {
+	switch r.(type) {
+	case LuaError, coClose:
+	default:
+		return r
+	}
+	for len(*tbcs) > 0 {
+		l := *tbcs
+		e := l[len(l)-1]
+		*tbcs = l[:len(l)-1]
+		r = in.closeUnder(e, r)
+	}
+	return r
+}
+
+// closeUnder closes e while cond (LuaError or coClose) is in flight and
+// returns the condition that is in flight afterwards.
+func (in *Interp) closeUnder(e tbcEntry, cond interface{}) interface{} {
+	switch x := cond.(type) {
+	case LuaError:
+		t := in.cur
+		t.closing++
+		r := in.closeOne2(e, x.V, true)
+		t.closing--
+		if r.raised {
+			return LuaError{V: r.v}
+		}
+	case coClose:
+		if r := in.closeOne2(e, x.err, x.hasErr); r.raised {
+			return coClose{err: r.v, hasErr: true}
+		}
+	}
+	return cond
 }
 
 type closeRes struct {
@@ -409,7 +467,10 @@ func (in *Interp) closeOne2(e tbcEntry, errv Value, hasErr bool) (res closeRes) 
 	if h == nil {
 		unspec("__close metamethod removed before the variable went out of scope")
 	}
+	t := in.cur
+	t.inHandler++
 	defer func() {
+		t.inHandler--
 		if r := recover(); r != nil {
 			if le, ok := r.(LuaError); ok {
 				res = closeRes{true, le.V}
@@ -424,15 +485,6 @@ func (in *Interp) closeOne2(e tbcEntry, errv Value, hasErr bool) (res closeRes) 
 	}
 	in.call(h, []Value{e.v, a}, 0, true)
 	return
-}
-
-// closeOne: error in flight; returns the (possibly replaced) error.
-func (in *Interp) closeOne(e tbcEntry, errv Value, hasErr bool) Value {
-	r := in.closeOne2(e, errv, hasErr)
-	if r.raised {
-		return r.v
-	}
-	return errv
 }
 
 // ---------------------------------------------------------------- statements
@@ -740,34 +792,12 @@ func (in *Interp) genFor(x *prog.GenFor, env *binding, fr *frame) (res ctl) {
 		}
 		tbcs = append(tbcs, tbcEntry{v: closing})
 	}
-	t := in.cur
-	normal := false
 	defer func() {
-		if normal {
+		if len(tbcs) == 0 {
 			return
 		}
 		if r := recover(); r != nil {
-			switch e := r.(type) {
-			case LuaError:
-				errv := e.V
-				t.closing++
-				for i := len(tbcs) - 1; i >= 0; i-- {
-					errv = in.closeOne(tbcs[i], errv, true)
-				}
-				t.closing--
-				panic(LuaError{V: errv})
-			case coClose:
-				errv, has := e.err, e.hasErr
-				for i := len(tbcs) - 1; i >= 0; i-- {
-					ne := in.closeOne2(tbcs[i], errv, has)
-					if ne.raised {
-						errv, has = ne.v, true
-					}
-				}
-				panic(coClose{err: errv, hasErr: has})
-			default:
-				panic(r)
-			}
+			panic(in.unwind(&tbcs, r))
 		}
 	}()
 	for {
@@ -794,7 +824,6 @@ func (in *Interp) genFor(x *prog.GenFor, env *binding, fr *frame) (res ctl) {
 			break
 		}
 	}
-	normal = true
 	in.closeDown(&tbcs, 0)
 	return res
 }
